@@ -35,6 +35,13 @@ func fres(r float32, exact bool, ins ...Sc) Sc {
 	if !exact {
 		s.Tol = 1
 	}
+	if r == 0 {
+		for _, in := range ins {
+			if in.ZS {
+				s.ZS = true
+			}
+		}
+	}
 	return s
 }
 
